@@ -297,9 +297,9 @@ Section Runs.
 End Runs.
 
 (* the four tables of the library *)
-Corollary runs_asg_structure L :
-  (forall j, (j < length L)%nat -> covered (runs_asg L) j) /\ sound tasg L (runs_asg L) (length L).
-Proof. destruct (runs_structure tasg false false L) as (_ & H1 & H2). split; assumption. Qed.
+Corollary runs_asg_structure mv L :
+  (forall j, (j < length L)%nat -> covered (runs_asg mv L) j) /\ sound (tasg mv) L (runs_asg mv L) (length L).
+Proof. destruct (runs_structure (tasg mv) false false L) as (_ & H1 & H2). split; assumption. Qed.
 Corollary runs_swp_structure L :
   (forall j, (j < length L)%nat -> covered (runs_swp L) j) /\ sound tswp L (runs_swp L) (length L).
 Proof. destruct (runs_structure tswp false false L) as (_ & H1 & H2). split; assumption. Qed.
@@ -314,6 +314,6 @@ Proof. destruct (runs_structure lxm true false L) as (_ & H1 & H2). split; assum
 Corollary runs_swp_separated L : forall k e, nth k (runs_swp L) RSkip = REnd e ->
   forall j, (k < j <= e)%nat -> nth j (runs_swp L) RSkip = RSkip.
 Proof. intros k e Hk. destruct (runs_separated tswp false false L) as [_ H]. exact (proj2 (H k e Hk)). Qed.
-Corollary runs_asg_separated L : forall k e, nth k (runs_asg L) RSkip = REnd e ->
-  forall j, (k < j <= e)%nat -> nth j (runs_asg L) RSkip = RSkip.
-Proof. intros k e Hk. destruct (runs_separated tasg false false L) as [_ H]. exact (proj2 (H k e Hk)). Qed.
+Corollary runs_asg_separated mv L : forall k e, nth k (runs_asg mv L) RSkip = REnd e ->
+  forall j, (k < j <= e)%nat -> nth j (runs_asg mv L) RSkip = RSkip.
+Proof. intros k e Hk. destruct (runs_separated (tasg mv) false false L) as [_ H]. exact (proj2 (H k e Hk)). Qed.
